@@ -296,44 +296,64 @@ def opsig(i):
     return f"{op.family}:{op.kind}"
 
 
+FAM_CAP = {"quick": 6, "thorough": 8}  # operations of one family used in the deeper family-local histories
+
+
 @functools.lru_cache(maxsize=None)
-def sequences(tier):
-    n = len(alphabet())
+def blocks(tier):
+    """The history space as blocks (operation indices, length): all sequences of that length over those operations.
+    Never materialised: a unit is a range of mixed-radix indices of one block (see seq_at)."""
     ops = alphabet()
-    allops = list(range(n))
+    allops = tuple(range(len(ops)))
     K = 3 if tier == "quick" else 4
-    seqs = []
-    for k in range(1, K + 1):
-        for s in itertools.product(allops, repeat=k):
-            if ops[s[-1]].kind == "env":
-                continue  # the last operation is the probe
-            seqs.append(s)
-    # deeper, family-local histories (each family plus the environment moves)
-    env = [i for i in allops if ops[i].kind == "env"]
     KL = 5 if tier == "quick" else 6
-    fams = sorted({o.family for o in ops if o.family != "env"})
-    for f in fams:
-        fam = [i for i in allops if ops[i].family == f]
-        if tier == "quick" and len(fam) > 6:
-            fam = fam[:6]
-        loc = fam + env
-        for k in range(K + 1, KL + 1):
-            for s in itertools.product(loc, repeat=k):
-                if ops[s[-1]].kind == "env":
-                    continue
-                # skip sequences with two consecutive identical env moves (idempotent)
-                if any(a == b and ops[a].kind == "env" for a, b in zip(s, s[1:])):
-                    continue
-                seqs.append(s)
-    return seqs
+    out = [(allops, k) for k in range(1, K + 1)]
+    env = [i for i in allops if ops[i].kind == "env"]
+    for f in sorted({o.family for o in ops if o.family != "env"}):
+        fam = [i for i in allops if ops[i].family == f][: FAM_CAP[tier]]
+        out += [(tuple(fam + env), k) for k in range(K + 1, KL + 1)]
+    return out
 
 
-STEP = 3000
+def seq_at(block, idx):
+    loc, k = block
+    n = len(loc)
+    s = []
+    for _ in range(k):
+        idx, d = divmod(idx, n)
+        s.append(loc[d])
+    return tuple(reversed(s))
+
+
+def admitted(s, ops, local):
+    if ops[s[-1]].kind == "env":
+        return False  # the last operation is the probe
+    # family-local blocks: skip sequences with two consecutive identical env moves (idempotent)
+    return not (local and any(a == b and ops[a].kind == "env" for a, b in zip(s, s[1:])))
+
+
+def sequences(tier, unit=None):
+    """Generator over the admitted sequences of one unit (or of the whole tier)."""
+    ops = alphabet()
+    K = 3 if tier == "quick" else 4
+    us = [unit] if unit is not None else [u for u in units(tier) if u[0] == "h"]
+    for _, bi, a, b in us:
+        block = blocks(tier)[bi]
+        for idx in range(a, b):
+            s = seq_at(block, idx)
+            if admitted(s, ops, block[1] > K):
+                yield s
+
+
+STEP = 4000
 
 
 def units(tier):
-    n = len(sequences(tier))
-    return [("h", a, min(n, a + STEP)) for a in range(0, n, STEP)] + [("fresh", i, i + 1) for i in range(len(alphabet())) if alphabet()[i].kind != "env"]
+    us = []
+    for bi, (loc, k) in enumerate(blocks(tier)):
+        n = len(loc) ** k
+        us += [("h", bi, a, min(n, a + STEP)) for a in range(0, n, STEP)]
+    return us + [("fresh", i, i + 1) for i in range(len(alphabet())) if alphabet()[i].kind != "env"]
 
 
 def meta(tier):
@@ -342,11 +362,11 @@ def meta(tier):
     return {
         "rule": f"operation alphabet of {len(ops)} operations in colliding families (both member orders of a union; 1/1.0/True/'1'/b'1'; equal instants with different offsets; JSON text yielding "
         "mutable results as str and bytes; a cyclic class via class and container root; one bare name from two modules; builds) plus the environment moves mutate-results, mutate-inputs, clear-caches; "
-        f"EVERY sequence of length <= {K} over the whole alphabet and every family-local sequence (family + environment moves) up to length {5 if tier == 'quick' else 6} is replayed from the cold state and "
+        f"EVERY sequence of length <= {K} over the whole alphabet and every family-local sequence (family + environment moves) up to length {5 if tier == 'quick' else 6} (the first {FAM_CAP[tier]} operations of a family) is replayed from the cold state and "
         "EVERY operation in it is judged: canonical outcome == outcome of that operation alone in the cold state, input unchanged, result containers disjoint from earlier results and other calls' inputs; "
         "additionally every operation's cold outcome is compared with its outcome in a freshly spawned interpreter; states are identified with histories (cache contents cannot be hashed); "
         "non-trivial = the operation returned; distinct by (history)",
-        "bounds": {"alphabet": [o.name for o in ops], "full_depth": K, "family_depth": 5 if tier == "quick" else 6},
+        "bounds": {"alphabet": [o.name for o in ops], "full_depth": K, "family_depth": 5 if tier == "quick" else 6, "family_ops_in_deeper_histories": FAM_CAP[tier]},
         "assumptions": ["cold = every typelib cache cleared + typing's own alias caches cleared; cold == fresh process is itself checked"],
         "exhaustive": True,
     }
@@ -354,14 +374,14 @@ def meta(tier):
 
 def run_unit(unit, tier, res):
     world()
-    kind, a, b = unit
+    kind = unit[0]
     if kind == "fresh":
-        run_fresh(a, res)
+        run_fresh(unit[1], res)
         return
-    seqs = sequences(tier)
     ops = alphabet()
-    for idx in range(a, b):
-        s = seqs[idx]
+    last = None
+    for s in sequences(tier, unit):
+        last = s
         faults = run_history(s, res)
         res.programs += 1
         res.states.add(h64(s))
@@ -377,8 +397,8 @@ def run_unit(unit, tier, res):
             res.violation(f"C12/{mode}/probe={opsig(probe)}/after={'+'.join(culprits)}",
                           f"{detail}; minimal history: {[ops[i].name for i in prefix]} then {ops[probe].name}",
                           {"kind": "h", "seq": list(prefix) + [probe], "names": [ops[i].name for i in prefix] + [ops[probe].name]})
-    if len(res.samples) < 2 and b > a:
-        res.samples.append({"history": [ops[i].name for i in seqs[b - 1]]})
+    if len(res.samples) < 2 and last is not None:
+        res.samples.append({"history": [ops[i].name for i in last]})
 
 
 def run_fresh(i, res):
